@@ -17,7 +17,13 @@ RULE = ("seeded random class families in one generated module (4-8 classes: root
         "class changes between argv items (top level and nested, a quarter of them with dict_kwargs on both sides), "
         "argument defaults, parse_object channel; plus 35 hand-made cases in every run (dotted null two levels down, "
         "functions with related/unrelated return type, same-named parameter of another type across a class change, "
-        "dict_kwargs naming a parameter, abstract declared type, two-level nested construction); "
+        "dict_kwargs naming a parameter, abstract declared type, two-level nested construction, prefix-named options / "
+        "parameters with merged config sources, a family that grows between two parses); per family 2 of the 12 cases are "
+        "parsers with 2-3 class-typed options whose names may be string prefixes of each other (x/x_ema, x/x2, xa/x/xab) fed by "
+        "2-3 merged config sources (--cfg A --cfg B, entries: full specs with class changes, init_args without class_path, "
+        "bare dicts) mixed with plain argv items, and 2 are histories in one process: the module first holds a prefix of the "
+        "class list, a parse naming a class by its bare name runs, the remaining classes are then defined in the same module "
+        "(plugin load) and the case proper runs against the grown family; "
         "non-trivial = accepted with >=1 explicit init_arg or >=2 steps, or rejected for a reason other than a missing "
         "import; distinct = distinct (family, declared type, default, steps, observation)")
 TRUSTED = [
@@ -29,7 +35,7 @@ TRUSTED = [
     "CPython class creation/import/call binding for the generated modules; inspect.signature",
 ]
 ASSUMPTIONS = [
-    "one generated module per family; class names unique; constructors take keyword-only explicit parameters, do not "
+    "one generated module per family (classes may be defined in it in two stages); class names unique; constructors take keyword-only explicit parameters, do not "
     "call super().__init__ and log (id, type name, kwargs); functions forward their keywords to the returned class",
     "string values are identifiers that YAML loads as str (no numeric-looking strings); null only for Optional[Class]",
     "parameter types int / str / Class / Optional[Class]; List/Dict/Union-of-class parameters, protocols, "
@@ -38,6 +44,10 @@ ASSUMPTIONS = [
     "during parsing, but will be used for class instantiation'), outside the validity claim: a TypeError of the "
     "prescribed call Class(**init_args, **dict_kwargs) caused by a dict_kwargs key the callable cannot take is not "
     "counted against the property; any other TypeError on an accepted spec is",
+    "a parser with several class-typed options is modelled as the product of single-option models (an option only sees the "
+    "argv items / config-source entries that address it; one rejection rejects the parse, one TypeError aborts "
+    "instantiate_classes); a config source entry --cfg={opt: v} is modelled like the argv item --opt=v; both are tied "
+    "per case, not proved; name clashes across modules (ambiguous bare names) are not generated",
     "model fuel: adapt/inst run with FUEL = 40 levels of nesting (generated depth <= 5); the theorems are stated for "
     "every fuel and exclude OutOfFuel by hypothesis (depth v < n) or by concluding from an Ok result",
 ]
@@ -62,7 +72,7 @@ META = {
     "level_note": "Partial: short-form = explicit-form (S3) is NOT a theorem; it is checked per case by running each case and "
                   "its explicit twin (computed by Spec.expand_steps, re-computed in Coq) through the implementation; that every "
                   "object is handed on once (no aliasing) and that a fully explicit valid spec is accepted (S4) are likewise "
-                  "only checked per case. dict_kwargs are treated as documented (not validated): a TypeError caused only by a "
+                  "only checked per case, as are the independence of several class-typed options under merged config sources and bare-name resolution in a family that grows between parses. dict_kwargs are treated as documented (not validated): a TypeError caused only by a "
                   "dict_kwargs key the callable cannot take is allowed by the spec. Trusted: Coq kernel/VM; faithfulness of the "
                   "hand-written model outside the generated cases (the clone/update choreography between adapt_class_type, "
                   "ActionTypeHint.__call__ and merge_config is collapsed to its net effect); the harness; import_object / "
